@@ -100,6 +100,7 @@ class Ctx:
         self.path = []
         self.pc = []
         self.pc_desc = []
+        self.kernels = []
         self.pc_id = 0
         self.model = None
         self.assumed = []
@@ -190,7 +191,69 @@ class Ctx:
         self.pc_desc.append(("" if val else "not ") + sb.describe())
         self.pc_id = hash((self.pc_id, sb.key(), val))
         self.model = None
+        self._note_kernel(sb, val)
         return val
+
+    def _note_kernel(self, sb, val):
+        """A fork that asserts q(x) <= 0 for a positive semidefinite quadratic form q pins x to the kernel of q
+        (q(x) = 0  <=>  Q x = 0): remember that linear subspace, identities are then checked modulo it."""
+        holds = (val != sb.neg)
+        e = sb.e
+        q = None
+        if sb.op == "lt" and not holds:          # not (e < 0)  i.e.  e >= 0
+            if self.quadratic_sign(e) == -1:
+                q = -e
+        elif sb.op == "le" and holds:            # e <= 0
+            if self.quadratic_sign(e) == 1:
+                q = e
+        elif sb.op == "eq" and holds:
+            sg = self.quadratic_sign(e)
+            if sg is not None:
+                q = e if sg == 1 else -e
+        if q is None:
+            return
+        from ..spec import null_space
+        d = q.denom.LC
+        used = sorted({k for mon, _ in q.numer.terms() for k, ex in enumerate(mon) if ex})
+        pos = {k: i for i, k in enumerate(used)}
+        n = len(used)
+        Q = [[Fraction(0)] * n for _ in range(n)]
+        for mon, c in q.numer.terms():
+            c = Fraction(int(c.numerator), int(c.denominator)) / Fraction(int(d.numerator), int(d.denominator))
+            nz = [(k, ex) for k, ex in enumerate(mon) if ex]
+            if len(nz) == 1:
+                Q[pos[nz[0][0]]][pos[nz[0][0]]] += c
+            else:
+                Q[pos[nz[0][0]]][pos[nz[1][0]]] += c / 2
+                Q[pos[nz[1][0]]][pos[nz[0][0]]] += c / 2
+        self.kernels.append(([self.names[k] for k in used], null_space(Q, n)))
+
+    def vanishes_on_kernels(self, e):
+        """e (field element, linear in the kernel symbols) is zero on the recorded kernel subspace."""
+        if not self.kernels:
+            return False
+        names, basis = self.kernels[-1]
+        if not e.denom.is_ground and any(e.denom.degree(self.gen[n].numer) > 0 if False else False for n in names):
+            return False
+        num = e.numer
+        gens = [self.gen[n].numer for n in names]
+        for g in gens:
+            if num.degree(g) > 1:
+                return False
+        coefs = [num.diff(g) for g in gens]
+        rest = num
+        for g, c in zip(gens, coefs):
+            rest = rest - c * g
+        if rest != 0:
+            return False
+        for v in basis:
+            tot = 0
+            for c, x in zip(coefs, v):
+                if x:
+                    tot = tot + c * self.K.ring.domain_new(QQ(x.numerator, x.denominator)) if False else tot + c * QQ(x.numerator, x.denominator)
+            if tot != 0:
+                return False
+        return True
 
     def must(self, sb):
         """Spec-side decision: has to follow from the path condition."""
@@ -218,6 +281,38 @@ class Ctx:
         p[-1] = False
         self.prefix = p
         return True
+
+    def quadratic_sign(self, e):
+        """+1 / -1 if e is a pure quadratic form in the generators that is positive / negative semidefinite
+        (decided exactly by LDL^T over Q), None otherwise.  Sound shortcut for abs() of error functionals."""
+        key = ("qs", e)
+        if key in self._cache:
+            return self._cache[key]
+        res = None
+        try:
+            if e.denom.is_ground and e.numer.terms() and all(sum(m) == 2 for m, _ in e.numer.terms()):
+                from ..spec import is_psd
+                n = len(self.names)
+                d = e.denom.LC
+                Q = [[Fraction(0)] * n for _ in range(n)]
+                for mon, c in e.numer.terms():
+                    c = Fraction(int(c.numerator), int(c.denominator)) / Fraction(int(d.numerator), int(d.denominator))
+                    nz = [(k, ex) for k, ex in enumerate(mon) if ex]
+                    if len(nz) == 1:
+                        Q[nz[0][0]][nz[0][0]] += c
+                    else:
+                        Q[nz[0][0]][nz[1][0]] += c / 2
+                        Q[nz[1][0]][nz[0][0]] += c / 2
+                used = sorted({k for mon, _ in e.numer.terms() for k, ex in enumerate(mon) if ex})
+                Qs = [[Q[i][j] for j in used] for i in used]
+                if is_psd(Qs):
+                    res = 1
+                elif is_psd([[-x for x in r] for r in Qs]):
+                    res = -1
+        except Exception:
+            res = None
+        self._cache[key] = res
+        return res
 
     # ---- translation to z3 -------------------------------------------------------
     def poly_z3(self, poly):
@@ -486,6 +581,9 @@ class Sym:
     def __abs__(self):
         if self.e.numer.is_ground:
             return self if (self.e.numer.LC if self.e != 0 else 0) >= 0 else -self
+        sg = self.ctx.quadratic_sign(self.e)
+        if sg is not None:
+            return self if sg >= 0 else -self
         return self if bool(SymBool(self.ctx, -self.e, "le")) else -self
 
     def __floordiv__(self, o):
